@@ -215,7 +215,15 @@ namespace nmtools::meta
                 return as_value_v<nmtools_array<index_t,len_v<shape_t>>>;
             } else if constexpr (is_index_array_v<shape_t> && is_index_array_v<pad_width_t>) {
                 using type = transform_bounded_array_t<shape_t>;
-                return as_value_v<type>;
+                using element_t = get_element_type_t<type>;
+                if constexpr (is_clipped_integer_v<element_t>) {
+                    // a (static_)vector of clipped extents: the padded extent exceeds the bound of the extent,
+                    // keep the container, use the plain index type
+                    using result_t = replace_value_type_t<type,typename element_t::value_type>;
+                    return as_value_v<result_t>;
+                } else {
+                    return as_value_v<type>;
+                }
             } else {
                 return as_value_v<error::SHAPE_PAD_UNSUPPORTED<shape_t,pad_width_t>>;
             }
